@@ -9,6 +9,7 @@ moves / consumer reads / cancel / stop.
 import Neutrino.Lemmas.Subs
 import Neutrino.Lemmas.SubsIso
 import Neutrino.Lemmas.SubsDrain
+import Neutrino.Lemmas.SubsWindow
 import Neutrino.Spec.Subs
 import Neutrino.Gen.Subs
 namespace Neutrino.Subs
@@ -68,6 +69,41 @@ theorem C11_complete (evs : List Ev) (id : Nat) (x : Sub)
   obtain ⟨y, hy, hyc, hyq, hyd, _⟩ := drain_run id _ (run init evs) x hx hopen rfl
   refine ⟨y, by rw [run_append]; exact hy, hyc, hyq, ?_⟩
   rw [hyd, h.conserve, h.sinceLive hlive]
+
+/-- **Nothing falls between backlog and live stream.**  Whatever the source emits
+(`w`, any length) while the handler is busy with subscriber `id`'s registration —
+i.e. after the backlog snapshot `bl` was taken and before the handler is free
+again — waits at the source, is fanned out after the registration, and is owed to
+the new subscriber right after its backlog: its stream is exactly `bl ++ w`, in
+order, nothing lost and nothing twice.  (This is what breaks when the snapshot is
+taken outside the handler goroutine: see `C11_source_facts`,
+`backlogLookupCallers`.) -/
+theorem C11_registration_window (evs : List Ev) (id h : Nat) (bl w : List Ntfn)
+    (hrun : (run init evs).stopped = false) (hfresh : (run init evs).subs id = none)
+    (hsrc : (run init evs).src = []) :
+    ∃ x, (run init (evs ++ w.map Ev.emit ++ [.subscribe id h bl] ++
+              w.map (fun _ => Ev.handlerFanout))).subs id = some x ∧
+      x.backlog = bl ∧ x.since = w ∧ x.delivered ++ x.chan ++ x.queue = bl ++ w := by
+  -- the state when the handler finishes the registration step
+  have h1 : run init (evs ++ w.map Ev.emit) = { run init evs with src := w } := by
+    rw [run_append, run_emits, hsrc]; rfl
+  let x0 : Sub := { height := h, regAt := (run init evs).fanned.length, backlog := bl, queue := bl }
+  have h2 : run init (evs ++ w.map Ev.emit ++ [.subscribe id h bl]) =
+      { run init evs with src := w, subs := setSub (run init evs).subs id x0 } := by
+    rw [run_append, h1]
+    simp [run, step, hrun, hfresh, x0]
+  obtain ⟨_, _, hf, y, hy, hyl, hyr, hyb⟩ :=
+    run_fanouts w { run init evs with src := w, subs := setSub (run init evs).subs id x0 } []
+      hrun (by simp) id x0 (by simp [setSub]) rfl
+  have hf' : (run { run init evs with src := w, subs := setSub (run init evs).subs id x0 }
+      (w.map fun _ => Ev.handlerFanout)).fanned = (run init evs).fanned ++ w := hf
+  rw [← h2, ← run_append] at hy hf'
+  obtain ⟨hc, _, hlive, _, _⟩ := C11_prefix _ id y hy
+  have hs : y.since = w := by
+    rw [hlive hyl, hf', hyr]
+    show ((run init evs).fanned ++ w).drop (run init evs).fanned.length = w
+    simp
+  exact ⟨y, hy, hyb, hs, by rw [hc, hyb, hs]⟩
 
 /-- **Isolation**: deleting all of subscriber `B`'s events (its registration,
 its forwarder's moves, its reads or its never reading, its cancellation) from
@@ -147,8 +183,11 @@ theorem C11_oracle_holds (evs : List Ev) (id : Nat) (x : Sub) (hx : (run init ev
 /-- The facts regenerated from blockntfns/manager.go on this run that the model
 relies on: the channel capacity; registration goes through the handler goroutine
 (`m.newSubscriptions <- sub`), the client map is only mutated by the two
-handler-side functions, which only `subscriptionHandler` calls; the backlog is
-pushed before the client is inserted into the map; fan-out reaches every client
+handler-side functions, which only `subscriptionHandler` calls; the backlog
+lookup (`NotificationsSinceHeight`) is made by the handler-side registration
+function and nowhere else, so snapshot, backlog push and map insert are one step
+of the handler goroutine; the backlog is pushed before the client is inserted
+into the map; fan-out reaches every client
 of the map; pushes and forwards are blocking (nothing dropped); `cancel()` is
 once-guarded and is exactly stop-queue, close-quit, wait-forwarder,
 close-channel, the only close of that channel. -/
@@ -156,6 +195,7 @@ theorem C11_source_facts :
     Gen.Subs.ntfnChanCap = 20 ∧ Gen.Subs.registersViaHandler = true ∧
     Gen.Subs.mapMutators = ["handleNewSubscription", "handleCancelSubscription"] ∧
     Gen.Subs.mapMutatorCallers = ["subscriptionHandler"] ∧
+    Gen.Subs.backlogLookupCallers = ["handleNewSubscription"] ∧
     Gen.Subs.backlogBeforeInsert = true ∧ Gen.Subs.fanoutEveryClient = true ∧
     Gen.Subs.pushBlocking = true ∧ Gen.Subs.forwardBlocking = true ∧
     Gen.Subs.cancelOnce = true ∧
@@ -188,6 +228,14 @@ example : ((run init demo).subs 2).map (fun x => (x.closed, x.chan.length + x.qu
 example :
     let evs := [Ev.subscribe 1 0 []] ++ ((List.range 25).map fun i => [Ev.emit ⟨i, true, i⟩, .handlerFanout, .forward 1]).flatten
     ((run init evs).subs 1).map (fun x => (x.chan.length, x.queue.length, x.delivered.length)) = some (20, 5, 0) := by decide
+/-- the registration window: n2 is emitted while subscriber 2's backlog lookup (snapshot [n1]) is in
+progress in the handler; it waits at the source, is fanned out after the registration and reaches
+subscriber 2 after its backlog, and subscriber 1 as usual -/
+example :
+    let evs := [Ev.subscribe 1 0 [], .emit n2, .subscribe 2 4 [n1], .handlerFanout, .forward 1, .forward 2, .forward 2,
+                .consume 2, .consume 2, .consume 1]
+    outs init evs = [.ok, .unit, .ok, .ok, .unit, .unit, .unit, .item n1, .item n2, .item n2] ∧
+    ((run init evs).subs 2).map (fun x => (x.backlog, x.since, x.delivered)) = some ([n1], [n2], [n1, n2]) := by decide
 /-- after stop, reads drain the channel and then report `closed` -/
 example : outs init [.subscribe 1 0 [n1, n2], .forward 1, .stop, .consume 1, .consume 1, .forward 1, .consume 1] =
     [.ok, .unit, .unit, .item n1, .closed, .unit, .closed] := by decide
